@@ -12,12 +12,13 @@ EXTENDS Gen
 CONSTANTS MaxRows, Deep
 
 Half == Rat(1, 2)
-R(a, b, p, f) == Row([a |-> a, b |-> b, n |-> ObjV([p |-> p]), f |-> BoolV(f)])
+\* (n.q.r: a path of three plain keys, which may be written without quotes)
+R(a, b, p, f) == Row([a |-> a, b |-> b, n |-> ObjV([p |-> p, q |-> ObjV([r |-> p])]), f |-> BoolV(f)])
 Rows == {R(NumV(1), NumV(2), NumV(5), TRUE), R(NumV(3), Half, NumV(1), FALSE),
          R(NumV(-2), NumV(2), NumV(0), TRUE), R(NumV(0), NumV(3), NumV(2), FALSE),
          R(Null, NumV(1), NumV(4), TRUE),
          \* a ragged table: this row has no key b at all (a reference to it yields NULL - whatever an earlier row held)
-         Row([a |-> NumV(2), n |-> ObjV([p |-> NumV(1)]), f |-> BoolV(TRUE)])}
+         Row([a |-> NumV(2), n |-> ObjV([p |-> NumV(1), q |-> ObjV([r |-> NumV(1)])]), f |-> BoolV(TRUE)])}
 
 A == Col("a")
 B == Col("b")
@@ -42,7 +43,8 @@ Cases == {CaseE(<<[c |-> c1, v |-> v1]>>, els) : c1 \in Conds, v1 \in {A, LN(1),
          {CaseE(<<[c |-> c1, v |-> LN(1)], [c |-> c2, v |-> NP]>>, els) : c1 \in Conds, c2 \in Conds, els \in {None, LN(7)}}
 Exprs == Atoms \cup D1 \cup D2 \cup Cases
 
-Items == {Star, Item(A, ""), Item(A, "x"), Item(NP, ""), Item(NP, "a"), Item(M, ""), Item(Bin("+", A, LN(1)), "b"),
+NQR == ColP(<<"n", "q", "r">>)
+Items == {Star, Item(A, ""), Item(A, "x"), Item(NP, ""), Item(NP, "a"), Item(M, ""), Item(Bin("+", A, LN(1)), "b"), Item(NQR, ""),
           Item(Bin("*", B, LN(2)), "y"), Item(LS(<<104, 105>>), "s")}
 Lists == SeqsFromTo(Items, 1, 3)
 Wheres == {None, CmpE(">", B, LN(1))}
